@@ -86,6 +86,7 @@ def ClauseKind (st : Store) (e : Enc) (T F : Nat → Bool) (dirty : Nat → Prop
   (∃ i s, e.sv i = some s ∧ nl s ∈ c ∧ (¬ dirty i → ∃ cl, CurClauses st e i s cl ∧ c ∈ cl))
 
 structure EncInv (st : Store) (e : Enc) (Γ : Cnf) (T F : Nat → Bool) (dirty : Nat → Prop) : Prop where
+  vars_pos : 1 ≤ e.vars.length
   sz_a : e.argVar.length = st.labels.length
   sz_s : e.selVar.length = st.labels.length
   av_live : ∀ i, st.hasId i = true → ∃ v, e.av i = some v ∧ 1 ≤ v ∧ e.ty v = .arg i ∧
@@ -94,7 +95,7 @@ structure EncInv (st : Store) (e : Enc) (Γ : Cnf) (T F : Nat → Bool) (dirty :
   ty_arg : ∀ v i, e.ty v = .arg i → st.hasId i = true ∧ e.av i = some v
   ty_sel : ∀ v i, e.ty v = .sel i → e.sv i = some v
   ty_disj : ∀ v i, e.ty v = .disj i →
-      1 ≤ v ∧ (e.ty (v - 1) = .arg i ∨ (T (v - 1) = true ∧ st.hasId i = false))
+      (1 ≤ v ∧ i < st.labels.length) ∧ (e.ty (v - 1) = .arg i ∨ (T (v - 1) = true ∧ st.hasId i = false))
   asm : ∀ l, l ∈ e.assumptions ↔ ∃ s i, l = pl s ∧ e.ty s = .sel i
   asm_nodup : e.assumptions.Nodup
   ghostT : ∀ v, T v = true → e.ty v = .ignored ∧ v < e.vars.length
